@@ -2,6 +2,7 @@ package main
 
 import (
 	"go/token"
+	"strings"
 
 	"golang.org/x/tools/go/ssa"
 )
@@ -50,4 +51,15 @@ func (vc *VC) pow2Term(n Term) Term {
 		vc.emit("(assert (forall ((q_e Int)) (! (=> (>= q_e 0) (> (pow2 q_e) 0)) :pattern ((pow2 q_e)))))")
 	}
 	return app(SInt, "pow2", n)
+}
+
+// nameBV binds a bit-vector term to a fresh constant (declare + equality), unless it
+// mentions bound variables.
+func (vc *VC) nameBV(prefix string, t Term) Term {
+	if strings.Contains(t.S, "q_") || strings.Contains(t.S, "p!") || strings.Contains(t.S, "h!") {
+		return t
+	}
+	c := vc.fresh(prefix, t.Sort)
+	vc.emit("(assert (= " + c.S + " " + t.S + "))")
+	return c
 }
